@@ -344,26 +344,79 @@ Proof. exact skip_final_loses_final_replay. Qed.
 Print Assumptions C16_skip_final_rule_loses_final_replay.
 
 (* JUnit: the handler reads recorder.label, status and skip_reason - and, through format_failures, the TEXT of the
-   responses of the failure groups stored under the label.  No event attribute makes it crash or pass over a failure;
-   a response text that cannot be decoded does (finding C16-F11) *)
+   responses of the failure groups stored under the label.  No event attribute makes it crash or pass over a failure.
+   Since 22e8a9e1 format_failures catches (UnicodeError, LookupError) around response.text: unknown charsets and
+   raising codecs (finding C16-F11, fixed) are inside the theorem.  What is left outside is a charset NAME Python
+   refuses before any lookup (NUL character: ValueError), finding C16-F12 *)
 Theorem C16_junit_all_events_never_crashes_partial : forall h, texts_decodable h = true ->
   exists s t w, junit_run_ev h = RunningEv s t w [].
 Proof. exact junit_ev_never_crashes. Qed.
 Print Assumptions C16_junit_all_events_never_crashes_partial.
 
+(* the region, read on one interaction: only a received response whose charset name is refused *)
+Theorem C16_junit_region_meaning : forall i, text_raises i = true <-> (i_response i = true /\ i_codec i = CodecBadName).
+Proof. exact text_raises_meaning. Qed.
+Print Assumptions C16_junit_region_meaning.
+
+(* inside the region both halves hold together: the run goes on AND every FAILURE event is in the report *)
+Theorem C16_junit_all_events_runs_and_reports_partial : forall h, texts_decodable h = true ->
+  exists s t w, junit_run_ev h = RunningEv s t w []
+    /\ forall e, In (FScenario e) h -> sf_status e = StFailure -> has_failure (sf_rlabel e) t = true.
+Proof. exact junit_ev_runs_and_reports. Qed.
+Print Assumptions C16_junit_all_events_runs_and_reports_partial.
+
 Theorem C16_junit_all_events_never_crashes_refuted : exists h a, junit_run_ev h = Aborted a.
 Proof. exact junit_ev_never_crashes_refuted_ex. Qed.
 Print Assumptions C16_junit_all_events_never_crashes_refuted.
 
-(* the witnesses: a failed check on a response with an unknown charset aborts the run at once; a group stored by a
-   SUCCESS-status event aborts it at the next FAILURE event of the label; the dictionary-level machine of Part 2
-   (C16_junit_never_crashes) does not see the response text and keeps running *)
+(* the witnesses: a failed check on a response whose charset name carries a NUL character aborts the run at once; a
+   group stored by a SUCCESS-status event aborts it at the next FAILURE event of the label; the dictionary-level
+   machine of Part 2 (C16_junit_never_crashes) does not see the response text and keeps running *)
 Theorem C16_junit_aborts_on_undecodable_failure_text :
-  texts_decodable h_bogus_failure = false /\ junit_run_ev h_bogus_failure = Aborted (AbortText 1)
-  /\ junit_run_ev h_bogus_then_failure = Aborted (AbortText 1)
-  /\ (exists s t w, junit_run (map jevent_of h_bogus_failure) = Running s t w).
+  texts_decodable h_nul_failure = false /\ junit_run_ev h_nul_failure = Aborted (AbortText 1)
+  /\ junit_run_ev h_nul_then_failure = Aborted (AbortText 1)
+  /\ (exists s t w, junit_run (map jevent_of h_nul_failure) = Running s t w).
 Proof. exact junit_ev_aborts_on_undecodable_text. Qed.
 Print Assumptions C16_junit_aborts_on_undecodable_failure_text.
+
+(* for EVERY except clause around response.text: inside its own region the handler never aborts; a clause that lets
+   nothing through (the complete repair) has every history in its region *)
+Theorem C16_junit_any_catch_rule_never_crashes_partial : forall c h, texts_decodable_c c h = true ->
+  exists s t w, junit_run_ev_c c forward_all h = RunningEv s t w [].
+Proof. exact junit_ev_never_crashes_c. Qed.
+Print Assumptions C16_junit_any_catch_rule_never_crashes_partial.
+
+Theorem C16_junit_catch_all_rule_never_crashes : forall c h, (forall x, c x = true) ->
+  exists s t w, junit_run_ev_c c forward_all h = RunningEv s t w [].
+Proof. exact junit_ev_catch_all_never_crashes. Qed.
+Print Assumptions C16_junit_catch_all_rule_never_crashes.
+
+(* sentinel for the handler before 22e8a9e1 (except UnicodeDecodeError): its region was every charset decodable; the
+   repair only enlarged the region; on the two witnesses of C16-F11 (charset=bogus under a FAILURE event;
+   charset=undefined under a SUCCESS event, then a FAILURE event of the label) the old clause aborts the run, the
+   code as it is keeps running and writes the report with a failure element under the label *)
+Theorem C16_junit_old_catch_rule_never_crashes_partial : forall h, texts_decodable_old h = true ->
+  exists s t w, junit_run_ev_old h = RunningEv s t w [].
+Proof. exact junit_ev_old_never_crashes. Qed.
+Print Assumptions C16_junit_old_catch_rule_never_crashes_partial.
+
+Theorem C16_junit_repair_enlarged_the_region : forall h, texts_decodable_old h = true -> texts_decodable h = true.
+Proof. exact texts_decodable_old_now. Qed.
+Print Assumptions C16_junit_repair_enlarged_the_region.
+
+Theorem C16_junit_old_catch_rule_refuted : exists h a, texts_decodable h = true /\ junit_run_ev_old h = Aborted a.
+Proof. exact junit_old_catch_rule_refuted_ex. Qed.
+Print Assumptions C16_junit_old_catch_rule_refuted.
+
+Theorem C16_junit_old_catch_rule_aborted_on_unknown_charset :
+  texts_decodable_old h_bogus_failure = false /\ texts_decodable h_bogus_failure = true
+  /\ texts_decodable_old h_bogus_then_failure = false /\ texts_decodable h_bogus_then_failure = true
+  /\ junit_run_ev_old h_bogus_failure = Aborted (AbortText 1)
+  /\ junit_run_ev_old h_bogus_then_failure = Aborted (AbortText 1)
+  /\ (exists s t w, junit_run_ev h_bogus_failure = RunningEv s t (Some w) [] /\ has_failure 1 w = true)
+  /\ (exists s t w, junit_run_ev h_bogus_then_failure = RunningEv s t (Some w) [] /\ has_failure 1 w = true).
+Proof. exact junit_old_catch_rule_aborts. Qed.
+Print Assumptions C16_junit_old_catch_rule_aborted_on_unknown_charset.
 
 (* every history, no region: a run that was not aborted has a failure element for every FAILURE-status event *)
 Theorem C16_junit_all_events_failure_is_reported : forall h s t w bad e, junit_run_ev h = RunningEv s t w bad ->
